@@ -55,6 +55,11 @@ class _T(ast.NodeTransformer):
             return ast.copy_location(
                 ast.Call(func=ast.Attribute(value=ast.Name(id="__symx_rt__", ctx=ast.Load()), attr="join", ctx=ast.Load()),
                          args=[f.value, node.args[0]], keywords=[]), node)
+        if isinstance(f, ast.Name) and f.id == "float" and len(node.args) == 1 and not node.keywords:
+            # float(x): the builtin insists on a real Python float; symbolic scalars convert to a float-sorted symbolic scalar
+            return ast.copy_location(
+                ast.Call(func=ast.Attribute(value=ast.Name(id="__symx_rt__", ctx=ast.Load()), attr="float_", ctx=ast.Load()),
+                         args=[node.args[0]], keywords=[]), node)
         return node
 
     def visit_BinOp(self, node):
